@@ -41,10 +41,10 @@ def iterates (tab : Array String) (start : Nat) : List Nat := Id.run do
     | none => return l
   return l
 
-def verdict (start table impl : String) : String :=
+def verdict (start table impl : String) (family : String := "") : String :=
   let tab := ((table.splitOn " ").filter (· ≠ "")).toArray
   let (o, _) := expected tab start.toNat!
-  let st (i : Nat) := fmtStr (List.replicate (i + 1) 0x61)
+  let st (i : Nat) := fmtStr (stabState family i)
   let want := match o with
     | .ok x => "ok:" ++ st x
     | .ruleErr t => t
